@@ -330,6 +330,8 @@ func errName(err error) string {
 		return "ok"
 	case errors.Is(err, dyntpl.ErrTplNotFound):
 		return "err:notfound"
+	case errors.Is(err, dyntpl.ErrIncDepth):
+		return "err:incdepth"
 	case errors.Is(err, dyntpl.ErrInterrupt):
 		return "err:interrupt"
 	case errors.Is(err, dyntpl.ErrBreakLoop):
@@ -397,7 +399,7 @@ type RCase struct {
 	Answer string
 }
 
-const sessFuel = 400
+const sessFuel = 1200
 
 // Run executes the case on the real engine and builds the driver request.
 func (c *RCase) Run() {
